@@ -26,6 +26,9 @@ RULE = (
     "violation too. Non-trivial = the history contains a non-label block and at least one of {renormalising "
     "non-unitary operation, channel, measurement, resize}; distinct = hash of (layout, step kinds and sites)."
 )
+from pw_verif.props._machine import HISTORY_NOTE, SURVIVOR_NOTE  # noqa: E402,F401
+
+RULE += SURVIVOR_NOTE + HISTORY_NOTE
 ASSUMPTIONS = ["reference self-tests passed", "non-unitary operators are only issued through the renormalising operation types (as the property's quantifier says)",
                "a program is abandoned (counted) after a step that violates a different property, since the state may be corrupt from then on"]
 
